@@ -366,6 +366,7 @@ func (fr *Frame) inline(callee *ssa.Function, args []*Val, fv *Val, rt types.Typ
 	vc.inlineSeq++
 	sub := &Frame{vc: vc, fn: callee, key: fmt.Sprintf("%s.i%d", sanitize(callee.Name()), vc.inlineSeq), depth: fr.depth + 1, vals: map[ssa.Value]*Val{}, parent: fr,
 		contr: vc.eng.contractOf(callee)}
+	sub.auto = sub.contr == nil && callee.Parent() == nil && vc.eng.autoInline(callee)
 	for i, p := range callee.Params {
 		if i < len(args) {
 			sub.vals[p] = args[i]
@@ -505,7 +506,7 @@ func (fr *Frame) builtin(b *ssa.Builtin, c *ssa.CallCommon, args []*Val, argVals
 		p := fr.pos(pos)
 		src := vc.eng.srcLine(p)
 		if !vc.noSafety {
-			vc.oblige("panic", fmt.Sprintf("%s/panic#%s", relFuncName(vc.fn), hash4(src)), p, src, fr.reach, "false", vc.safetyProps())
+			vc.oblige("panic", fmt.Sprintf("%s/panic#%s", relFuncName(vc.fn), hash4(src)), p, src, fr.reach, "false", vc.safetyProps("panic"))
 		}
 		return nil
 	case "recover":
